@@ -12,6 +12,7 @@ import Driver.CalcSteps
 import Driver.Struct
 import Driver.SMech
 import Driver.Serial
+import Driver.Edit
 /-! `mxdriver <layer>`: reads one operation per line on stdin, prints one observation per line. -/
 def main (args : List String) : IO UInt32 := do
   match args with
@@ -29,4 +30,5 @@ def main (args : List String) : IO UInt32 := do
   | ["struct"] => Driver.Struct.main; return 0
   | ["smech"] => Driver.SMech.main; return 0
   | ["serial"] => Driver.Serial.main; return 0
+  | ["edit"] => Driver.Edit.main; return 0
   | _ => IO.eprintln "usage: mxdriver <layer>"; return 2
